@@ -4,7 +4,7 @@ spec/Overloads16.tla; spec/Layout16.tla gives the rows their meaning (Addr, Foot
 extension operation of C09 on the k-th operands).  Model (TLC, MC_Layout16): every row well-formed, footprints inside exact
 extents, result cells pairwise distinct, and over F_13 the A..G formulas of the code (with precomputed challenge sums) and the
 mixed base/ext shortcuts equal the definition.  Conformance: tools/gen_layout16.py generates one call site per row (overload
-selected by its exact declared signature); harness/layout16/rt16.cpp runs every row >= 40 (quick) / 400 (thorough) times in
+selected by its exact declared signature); harness/layout16/rt16.cpp runs every row >= 96 (quick) / 400 (thorough) times in
 exact-extent guard-paged arenas (strides {0,1,2,3,4,5,7,1000,65537} for inputs, {3,4,5,7,1000,65537} for results, permuted /
 repeated / overlapping / spaced index lists, coefficients in all representations), twice with different garbage in every
 undesignated cell and complementary result pre-fills, in forked batches; Trace_Layout16 accepts an event iff the driver
@@ -264,7 +264,7 @@ def run(tier, seed, replay=None):
         exes[v] = exe
         built += vrows
         not_ex.update(skipped)
-    ncalls = 40 if tier == 'quick' else 400
+    ncalls = 96 if tier == 'quick' else 400
     if replay:
         cases = [tuple(c) for c in json.load(open(replay))['case']['cases']]
     else:
@@ -331,6 +331,8 @@ def run(tier, seed, replay=None):
     ck.cov['min_calls_per_exercised_overload'] = min([n for n in calls.values()] or [0])
     ck.cov['calls'] = len(recs)
     ck.cov['not_exercised'] = not_ex
+    for k, why in not_ex.items():
+        ck.note('not exercised: %s: %s' % (k, why))
     ck.cov['rejected_records'] = len(v['rejected'])
     ck.cov['timing_s'] = dict(driver=round(t_drv, 1), validation=round(t_val, 1))
     return ck.finish()
